@@ -358,6 +358,17 @@ pub fn c11(ctx: &Ctx, subj: &dyn DynSubject, ty: &Ty, rep: &mut Report) {
         fcuts.retain(|k| *k < len);
         fcuts.sort();
         fcuts.dedup();
+        // intact files of the same value under the names a backup or temporary copy would have: a loader must not
+        // turn to them when the file it was asked for is cut short
+        let decoys: Vec<std::path::PathBuf> = ["bak", "tmp", "old", "orig"].iter().map(|e| path.with_extension(e)).chain([".bak", "~", ".tmp", ".old"].iter().map(|suffix| {
+            let mut n = path.as_os_str().to_os_string();
+            n.push(suffix);
+            std::path::PathBuf::from(n)
+        })).collect();
+        for d in &decoys {
+            std::fs::write(d, &stored).map_err(|e| Fail::new("harness:tmpfile", format!("cannot write decoy file: {}", e)))?;
+        }
+        log.classes.push("intact-sibling-copies-present".into());
         for &k in &fcuts {
             std::fs::write(&path, &bytes[..k]).map_err(|e| Fail::new("harness:tmpfile", format!("cannot write temp file: {}", e)))?;
             log.extra_evals += 1;
@@ -383,6 +394,9 @@ pub fn c11(ctx: &Ctx, subj: &dyn DynSubject, ty: &Ty, rep: &mut Report) {
             }
         }
         std::fs::remove_file(&path).ok();
+        for d in &decoys {
+            std::fs::remove_file(d).ok();
+        }
         Ok(())
     });
 }
